@@ -114,14 +114,11 @@ Proof. intros H. unfold ceil_nat.
 (* ---- NoisySamplingSimulator.samples *)
 Definition limit (c : lcfg) : nat := prepare_samples (c_max_samples c) (c_max_shots c).
 
-(* FULL STATEMENT (false of the code as it is):
-     forall c hd fast sd ratio os, sim_len (sim_samples c hd fast sd ratio os) <= limit c
-   [x] is the floating-point value of max_shots * physical_perf / (1 - zpp); mathematically it is <= max_shots,
-   but the float sum of the probability table can be 1.0000000000000002, and ceil(x) = max_shots + 1. *)
-Theorem sample_bounds_partial c hd fast sd ratio os :
-  (forall k, c_max_shots c = Some k -> ratio <= nat_q k) ->
-  (sim_len (sim_samples c hd fast sd ratio os) <= limit c)%nat.
-Proof. intros HR. unfold sim_samples, limit.
+(* Generic in the configuration: the bound holds when the re-scaled limit does not exceed max_shots. *)
+Lemma sample_bounds_cfg old c hd fast sd x os :
+  (forall k, c_max_shots c = Some k -> (2 <=? c_F c)%nat = true -> old = true -> x <= nat_q k) ->
+  (sim_len (sim_samples_cfg old c hd fast sd x os) <= limit c)%nat.
+Proof. intros HR. unfold sim_samples_cfg, limit.
   destruct (negb hd); [simpl; lia|].
   set (prep := prepare_samples (c_max_samples c) (c_max_shots c)).
   destruct fast.
@@ -130,23 +127,18 @@ Proof. intros HR. unfold sim_samples, limit.
     match goal with |- context [if ?b then SimEmpty else _] => destruct b end; [simpl; lia|].
     cbn [sim_len].
     match goal with |- context [run ?c' os (init ?fb)] => destruct (loop_bounds c' fb os) as [B1 [B2 _]] end.
-    cbn [c_max_samples c_max_shots] in B1, B2. subst prep. unfold prepare_samples, scale_shots, scale_prepare in *.
+    cbn [c_max_samples c_max_shots] in B1, B2. subst prep. unfold prepare_samples, scale_shots_cfg, scale_prepare_cfg in *.
     destruct (c_max_shots c) as [k|] eqn:Ek; [|lia].
-    destruct (2 <=? c_F c)%nat.
-    + destruct (B2 _ eq_refl) as [B3 _]. pose proof (ceil_scaled k ratio (HR k eq_refl)). lia.
+    destruct (2 <=? c_F c)%nat eqn:EF.
+    + destruct (B2 _ eq_refl) as [B3 _]. destruct old.
+      * pose proof (ceil_scaled k x (HR k eq_refl eq_refl eq_refl)). lia.
+      * lia.
     + destruct (B2 _ eq_refl) as [B3 _]. lia. Qed.
 
-Theorem sample_bounds_zero c hd fast sd ratio os :
-  c_max_samples c = 0%nat \/ c_max_shots c = Some 0%nat -> sim_len (sim_samples c hd fast sd ratio os) = 0%nat.
-Proof. intros H. unfold sim_samples.
-  assert (E : prepare_samples (c_max_samples c) (c_max_shots c) = 0%nat).
-  { unfold prepare_samples. destruct H as [-> | ->]; [destruct (c_max_shots c)|]; lia. }
-  rewrite E. destruct (negb hd), fast; reflexivity. Qed.
-
-(* without the hypothesis on the ratio only max_samples is a bound *)
-Theorem sample_bounds_max_samples c hd fast sd ratio os :
-  (sim_len (sim_samples c hd fast sd ratio os) <= c_max_samples c)%nat.
-Proof. unfold sim_samples.
+(* whatever the configuration and the float product, max_samples is a bound *)
+Theorem sample_bounds_max_samples old c hd fast sd x os :
+  (sim_len (sim_samples_cfg old c hd fast sd x os) <= c_max_samples c)%nat.
+Proof. unfold sim_samples_cfg.
   destruct (negb hd); [simpl; lia|].
   set (prep := prepare_samples (c_max_samples c) (c_max_shots c)).
   assert (prep <= c_max_samples c)%nat by (unfold prep, prepare_samples; destruct (c_max_shots c); lia).
@@ -158,16 +150,35 @@ Proof. unfold sim_samples.
     match goal with |- context [run ?c' os (init ?fb)] => destruct (loop_bounds c' fb os) as [B1 _] end.
     exact B1. Qed.
 
-Theorem sample_bounds_refuted : exists c hd fast sd ratio os,
-  (limit c < sim_len (sim_samples c hd fast sd ratio os))%nat.
+(* THE CODE AS IT IS NOW (after /repo commit 869f2c44): the full statement, no hypothesis on the float product *)
+Theorem sample_bounds c hd fast sd x os : (sim_len (sim_samples c hd fast sd x os) <= limit c)%nat.
+Proof. apply sample_bounds_cfg. intros; discriminate. Qed.
+
+(* HISTORICAL (code before 869f2c44): max_shots = ceil(x) unclamped, where [x] is the floating-point value of
+   max_shots * physical_perf / (1 - zpp); mathematically x <= max_shots, but the float sum of the probability table
+   can be 1.0000000000000002, and ceil(x) = max_shots + 1. *)
+Theorem sample_bounds_partial_old_code c hd fast sd x os :
+  (forall k, c_max_shots c = Some k -> x <= nat_q k) ->
+  (sim_len (sim_samples_old_code c hd fast sd x os) <= limit c)%nat.
+Proof. intros H. apply sample_bounds_cfg. intros k E _ _. auto. Qed.
+
+Theorem sample_bounds_refuted_old_code : exists c hd fast sd x os,
+  (limit c < sim_len (sim_samples_old_code c hd fast sd x os))%nat.
 Proof.
   exists {| c_max_samples := 10; c_max_shots := Some 1%nat; c_F := 2; c_h := []; c_ps := PTrue; c_keep := false |},
          true, false, true, (Q2Qc (4503599627370497 # 4503599627370496)), [[1;1]; [2;0]]%nat.
   vm_compute. lia. Qed.
 
-Theorem sim_legal c hd fast sd ratio os s :
-  sim_samples c hd fast sd ratio os = SimLoop s -> Forall (legal c) (l_out s).
-Proof. unfold sim_samples. destruct (negb hd); [discriminate|]. destruct fast.
+Theorem sample_bounds_zero old c hd fast sd x os :
+  c_max_samples c = 0%nat \/ c_max_shots c = Some 0%nat -> sim_len (sim_samples_cfg old c hd fast sd x os) = 0%nat.
+Proof. intros H. unfold sim_samples_cfg.
+  assert (E : prepare_samples (c_max_samples c) (c_max_shots c) = 0%nat).
+  { unfold prepare_samples. destruct H as [-> | ->]; [destruct (c_max_shots c)|]; lia. }
+  rewrite E. destruct (negb hd), fast; reflexivity. Qed.
+
+Theorem sim_legal old c hd fast sd x os s :
+  sim_samples_cfg old c hd fast sd x os = SimLoop s -> Forall (legal c) (l_out s).
+Proof. unfold sim_samples_cfg. destruct (negb hd); [discriminate|]. destruct fast.
   - destruct (_ =? 0)%nat; discriminate.
   - destruct (_ =? 0)%nat; [discriminate|].
     match goal with |- context [if ?b then SimEmpty else _] => destruct b end; [discriminate|].
@@ -176,15 +187,14 @@ Proof. unfold sim_samples. destruct (negb hd); [discriminate|]. destruct fast.
     exact L. Qed.
 
 (* Sampler._samples_wrapper on top: None = 10^8 for max_samples *)
-Theorem wrapper_bound cap ms msh n k c hd fast sd ratio os :
-  (forall j, c_max_shots c = Some j -> ratio <= nat_q j) ->
+Theorem wrapper_bound cap ms msh n k c hd fast sd x os :
   wrapper_limits cap ms msh = Some (n, k) -> c_max_samples c = n -> c_max_shots c = k ->
-  (forall a, ms = Some a -> sim_len (sim_samples c hd fast sd ratio os) <= a)%nat /\
-  (forall b, msh = Some b -> sim_len (sim_samples c hd fast sd ratio os) <= b)%nat.
-Proof. intros HR W E1 E2. pose proof (sample_bounds_partial c hd fast sd ratio os HR) as B.
+  (forall a, ms = Some a -> sim_len (sim_samples c hd fast sd x os) <= a)%nat /\
+  (forall b, msh = Some b -> sim_len (sim_samples c hd fast sd x os) <= b)%nat.
+Proof. intros W E1 E2. pose proof (sample_bounds c hd fast sd x os) as B.
   unfold limit, prepare_samples in B. rewrite E1, E2 in B.
   destruct ms as [a|], msh as [b|]; simpl in W; try discriminate; injection W as <- <-;
-    split; intros x Hx; try discriminate; injection Hx as <-; lia. Qed.
+    split; intros y Hy; try discriminate; injection Hy as <-; lia. Qed.
 
 (* ================================================================ (iii) probs_to_sample_count *)
 Lemma upd_out k v : forall l, (length l <= k)%nat -> upd k v l = l.
@@ -458,6 +468,30 @@ Example rejection_hypotheses_satisfiable :
   c_phys (condition (shot ex_spec ex_K ex_mix) [(0, 1)]%nat PTrue 2 false)
   * c_logical (condition (shot ex_spec ex_K ex_mix) [(0, 1)]%nat PTrue 2 false) <> 0.
 Proof. repeat split.
+  - intros pg t w [<-|[<-|[]]]; vm_compute; intros [E|[]]; injection E as <- _; lia.
+  - intros pg [<-|[<-|[]]]; vm_compute; reflexivity.
+  - vm_compute. discriminate.
+  - vm_compute. discriminate. Qed.
+
+(* Processor.samples as it is now hands filter + herald photons to the sampler: the sampled law and the reported
+   performances are those of [condition ... (flt + herald_total h)], the very right-hand side of C04ext's theorems
+   on Simulator.probs_svd *)
+Theorem processor_samples_condition spec K mix h p flt :
+  no_photon_created spec K mix -> shots_normalised spec K mix -> pre_phys (flt + herald_total h) mix <> 0 ->
+  let pl := processor_pipeline spec K mix h p flt in
+  let c := condition (shot spec K mix) h p (flt + herald_total h) false in
+  p_phys pl = c_phys c /\ p_logical pl = c_logical c /\
+  (c_phys c * c_logical c <> 0 -> forall T, pr (p_results pl) T = pr (c_results c) T).
+Proof. intros H1 H2 H3. apply (rejection_is_conditioning spec K mix h p (flt + herald_total h) false H1 H2 H3). Qed.
+
+(* HISTORICAL (before /repo commit 5caa1a68): the filter was handed over without the herald photons, and the
+   physical performance of the samples was not the one of strong simulation *)
+Definition ex_mix_h : mixture := [(Q2Qc (1 # 2), [[1; 1]]); (Q2Qc (1 # 2), [[1; 0]])]%nat.
+Theorem processor_samples_refuted_old_code : exists spec K mix h p flt,
+  no_photon_created spec K mix /\ shots_normalised spec K mix /\ pre_phys (flt + herald_total h) mix <> 0 /\
+  p_phys (processor_pipeline_old_code spec K mix h p flt)
+  <> c_phys (condition (shot spec K mix) h p (flt + herald_total h) false).
+Proof. exists ex_spec, (fun t => [(t, 1)]), ex_mix_h, [(0, 1)]%nat, PTrue, 1%nat. repeat split.
   - intros pg t w [<-|[<-|[]]]; vm_compute; intros [E|[]]; injection E as <- _; lia.
   - intros pg [<-|[<-|[]]]; vm_compute; reflexivity.
   - vm_compute. discriminate.
